@@ -101,7 +101,7 @@ func (b *progBuilder) step(allowed []int) []int {
 	x := b.pick(allowed)
 	v := b.vals[x]
 	rank := len(v.Shape)
-	switch b.r.Intn(18) {
+	switch b.r.Intn(19) {
 	case 0:
 		b.add(ref.Instr{Op: "scale", In: []int{x}, F: []float64{-1.3, 0.5, 0.9, 1.2, -0.7, 1, 1, -1, 0}[b.r.Intn(9)]})
 	case 1:
@@ -202,6 +202,12 @@ func (b *progBuilder) step(allowed []int) []int {
 			}
 		}
 		b.add(ref.Instr{Op: "cos", In: []int{x}})
+	case 18: // explicit Broadcast to the same shape or with new leading 1s (expansion factor 1): an ordinary node that later steps may use twice
+		shape := ref.CopyInts(v.Shape)
+		for q := b.r.Intn(3); q > 0 && len(shape) < 4; q-- {
+			shape = append([]int{1}, shape...)
+		}
+		b.add(ref.Instr{Op: "broadcast", In: []int{x}, Shape: shape})
 	case 15:
 		b.add(ref.Instr{Op: "patch", In: []int{x, x}, Index: nil}) // whole-tensor patch of a node into itself (2 edges to one target)
 	case 16: // order statistics and spread along a dimension, only where they are differentiable with a margin
